@@ -23,7 +23,7 @@ import (
 // insert during the loop and nil interface keys / values; the recorder log of the
 // compiled generator is turned into a Trace_Map trace and validated by TLC.
 func C04(c *vf.Check) {
-	runFam(c, famSpec{id: "C04", fam: "range", name: "F_range", sizeQ: "2", sizeT: "3", tapeQ: "2", tapeT: "2", callsQ: 7, callsT: 8,
+	runFam(c, famSpec{id: "C04", fam: tier(c, "range", "rangex"), name: "F_range", sizeQ: "2", sizeT: "2", tapeQ: "2", tapeT: "2", callsQ: 7, callsT: 8,
 		keys: fullKeys, budget: 60, flags: []string{"KF03b"},
 		rule:   "part 1: every program of F_range up to MaxSize (range header: kind x variable form x expression as variable/call; every body starts by observing key and value; body statements: yield key / value, mutations of the collections, guarded break / continue, nested ranges; the same loop inside a closure when it does not yield; final observation of the function-level variables assigned by `=` loops) x every tape; part 2: map-range generator scenarios validated as traces; non-trivial as in C01",
 		assume: []string{"collections: s []int{10,20,30} cap 4, arr [3]int, str \"a\\u00e9\\xffz\", n 3, closed buffered channel; maps: <=3 keys incl. nil interface key, nil value"}})
